@@ -39,6 +39,13 @@ def cases(tier, seed):
                             pk = 3
                         out.append(dict(kind='exhaustive', layer=layer, mode=mode, role=role, w=w, lat=lat, hold=hold,
                                         size=unit * pk - 2, seed=seed * 131 + len(out)))
+    # connection-mode transfers with a configured minimum DT interval (the burst loop leaves after every packet: another code path)
+    for layer in ('j1939-21', 'j1939-22'):
+        unit = 60 if layer == 'j1939-22' else 7
+        for role in ('orig', 'resp'):
+            for w in (2, 255):
+                out.append(dict(kind='exhaustive', layer=layer, mode='cmdt', role=role, w=w, lat=(0.0001, 0.001), hold=0.001 if tier == 'quick' else 0.005,
+                                size=unit * 4 - 2, dt_interval=0.002, seed=seed * 131 + len(out)))
     # failing transfers against a scripted peer (abort / silence / abandoned inbound session): the baseline outcome is 'not delivered,
     # everything released'; pre-emption must not change it, and in particular must not kill the job thread on the abort / time-out paths
     for layer in ('j1939-21', 'j1939-22'):
@@ -95,7 +102,10 @@ def one_run(case, plan, seed):
         return tracer
 
     sim.trace_hook = mk_tracer('A')
-    A = W.stack('A', max_cmdt_packets=w)
+    kw = dict(max_cmdt_packets=w)
+    if case.get('dt_interval') is not None:
+        kw['minimum_tp_rts_cts_dt_interval'] = case['dt_interval']
+    A = W.stack('A', **kw)
     rng = random.Random(seed)
     pay = [rng.randrange(256) for _ in range(size)]
     ca = W.ca(A, 0x10, identity_number=1)
@@ -118,7 +128,7 @@ def one_run(case, plan, seed):
                 W.call('send', ca.send_pgn, 0, 0xD0, RA, 6, list(pay))
     else:
         sim.trace_hook = mk_tracer('B')
-        B = W.stack('B', max_cmdt_packets=w)
+        B = W.stack('B', **kw)
         sim.trace_hook = None
         cb = W.ca(B, 0x20, identity_number=2)
         W.listen_ca(cb, 'B')
